@@ -70,6 +70,7 @@ pub struct SimRead {
     /// every (offset, len) served — "no read outside the basis" oracle
     pub served: Vec<(u64, usize)>,
     pub max_offset_requested: u64,
+    eof_reads: u64,
 }
 
 impl SimRead {
@@ -82,6 +83,7 @@ impl SimRead {
             stats: IoStats::default(),
             served: Vec::new(),
             max_offset_requested: 0,
+            eof_reads: 0,
         }
     }
 
@@ -104,6 +106,13 @@ impl SimRead {
         }
         let end = self.effective_len();
         if self.pos >= end || want == 0 {
+            // watchdog: a caller that keeps reading at end of input is not going to stop
+            if want > 0 {
+                self.eof_reads += 1;
+                if self.eof_reads > 200_000 {
+                    panic!("SIM-HANG: the reader was polled {} times at end of input without the caller giving up", self.eof_reads);
+                }
+            }
             return Ok(0);
         }
         let mut n = want.min((end - self.pos) as usize);
